@@ -727,7 +727,8 @@ PROPS = {
              "name, too large, largest accepted, truncated tail; IPv4/IPv6 endpoints) decoded by the real Decoder behind the real "
              "DatagramDecoder::read under every 1-cut, byte-at-a-time, sampled (thorough: all, for short streams) 2-/3-cut "
              "segmentations; encoder on random datagrams; distinct by query line"
-             " Encoder also on the largest datagrams a socket delivers: payloads of 9000, 65470 ... 65473, 65500, 65506, 65507 bytes (around the decoder's client-side limit, which is not the encoder's)",
+             " Encoder also on the largest datagrams a socket delivers: payloads of 9000, 65470 ... 65473, 65500, 65506, 65507 bytes (around the decoder's client-side limit, which is not the encoder's)"
+             " Among the non-UTF-8 application names four are valid up to their end and stop in the middle of a character",
         explanation="theorem decode_segmentation: chunked machine = independent record-level decoder on the concatenation, for all "
                     "chunk lists; spec_decode_encode: round trip; inv_step/inv_buffer_bounded: bounded buffering, no panic",
         trusted=["std::str::from_utf8 as transcribed in TT/Model/Utf8.lean (tied by the bad/good name corpus)"],
@@ -905,7 +906,8 @@ PROPS = {
              " Certificate files that cannot be loaded as what they claim to be - a CERTIFICATE block that is not base64 (alone with a good key, after a good certificate, before one), a key and no certificate, an empty file - in every host class, built and through a hosts file at start-up: all refused"
              " ... and a file with a certificate and no key named as certificate and key file (a \"combined\" file without its key)"
              " A settings file that leaves every optional key out is written back as TOML and compared key by key (45 keys in 6 sections) with a built configuration"
-             " Every integer and boolean key of the settings sections (top level, http1, http2, quic, icmp, metrics: 30 keys by name, 5 by alias) is set in a file under each spelling the deserialiser accepts (table regenerated from settings.rs by the translator); the settings read from the file are written back and compared with the defaults - exactly the setting the key names must have moved, to the value given - and the moved fields are compared with the table the theorems keys_unambiguous and keys_name_their_fields are about",
+             " Every integer and boolean key of the settings sections (top level, http1, http2, quic, icmp, metrics: 30 keys by name, 5 by alias) is set in a file under each spelling the deserialiser accepts (table regenerated from settings.rs by the translator); the settings read from the file are written back and compared with the defaults - exactly the setting the key names must have moved, to the value given - and the moved fields are compared with the table the theorems keys_unambiguous and keys_name_their_fields are about"
+             " One credentials list in three writes a user name twice, the second time right behind the first with another password: both pairs are read back and accepted",
         explanation="keys_unambiguous, keys_name_their_fields over the regenerated TT/Gen/SettingsKeys.lean; theorems decode_encode_basic, literal_verbatim, basic_plain_verbatim, load_ok_iff, empty_rejected, base64_injective, "
                     "accepted_iff_listed, accepted_token_identifies_pair, refuses_to_start_iff about TT/Model/Creds.lean",
         trusted=["toml_edit for everything outside single-line basic/literal strings (multi-line strings are outside the model)",
@@ -1020,7 +1022,8 @@ PROPS = {
              "the session must end and the client must see its connection closed"
              " Relaying phase against TT/Model/H1Relay.lean: 200 (thorough 1500) sessions in which the client sends 1-5 payload segments and the peer writes and reads in a random script, ending with the peer's orderly end (3 in 5), the relay side dropped without one, or the client's end of stream: what the upload side was handed, what the client was sent and how the relaying listen() ended (graceful / failed / still running) are compared with the model's run over the same events"
              " Four of the valid heads end their lines with a bare LF (all lines, the last one only, the first one only, no header at all); the driver's concrete parser ends the head at its first empty line, CR LF or LF"
-             " Three origin-form targets with a query (authority from Host); the recognised URI's path and query are compared with the target as the client wrote it",
+             " Three origin-form targets with a query (authority from Host); the recognised URI's path and query are compared with the target as the client wrote it"
+             " The encoders (door encode_response_bytes / encode_request_bytes): 300 (thorough 2000) heads with 0-6 header lines over 7 names, names repeated: every line is written once, the lines of a name in their order, the head ends with one empty line",
         explanation="theorems head_segmentation_invariant, payload_exact, incomplete_head_waits, no_spin, head_bounded, oversize_rejected, "
                     "response_wellformed about TT/Model/H1.lean under the hypothesis PrefixConsistent(parser)"
                     "; relaying_goes_on, relayed_until_close, session_ends_with_either_side, abort_is_not_graceful, "
@@ -1065,7 +1068,8 @@ PROPS = {
              "bytes delivered than the origin produced; the over-long and bodiless classes are also answered by the C17 model"
              " Whole ICMP request frames delivered in pieces (cut after 1, 10, 22 bytes) with every tail behind them and another frame after that. Every parser case is announced to the progress watchdog (40 s): a busy loop ends the suite with that case named"
              " Malformed ICMP packets from the network (suite c11, borrowed): 9 ICMPv4 and 10 ICMPv6 packets that pass the kernel's filter and the endpoint's parser refuses (unassigned codes, messages shorter than their minimum, echo replies cut short) sent to the loopback addresses while the real forwarder listens on raw sockets; after each the listener must still run and a ping must still be answered"
-             " The live ICMP waiter-table histories (suite c11) are named for the progress watchdog (stall limit 90 s): a listener that wedges on an undeliverable reply stops the history that wedged it",
+             " The live ICMP waiter-table histories (suite c11) are named for the progress watchdog (stall limit 90 s): a listener that wedges on an undeliverable reply stops the history that wedged it"
+             " A panic of the SOCKS5 UDP association on a relayed datagram is reported with the datagrams of the exchange (suite c15, borrowed)",
         explanation="theorems udp_stream_no_panic, udp_step_safe, icmp_request_decoder_safe, ip_header_skipping_safe, icmp_packets_safe, "
                     "client_hello_prebuffer_bounded, h1_head_bounded_and_progress, socks_udp_datagram_safe, socks_truncated_reply_is_error, "
                     "rules_malformed_safe, forwarded_sink_never_spins / _consumes / _failure_is_final (every write of the plain-HTTP response "
